@@ -290,7 +290,18 @@ impl Rollback {
         }
 
         let prune_to_new_start_live = if in_memory.total_len() > self.shared.max_rollback_log_len {
-            Some(in_memory.pop_oldest().unwrap().0.next().0)
+            let new_start_live = in_memory.pop_oldest().unwrap().0.next().0;
+            if in_memory.total_len() == 0 {
+                // Nothing is retained (a maximum log length of zero): the log becomes empty
+                // rather than starting past its own end.
+                return WriteoutData {
+                    rollback_start_live: 0,
+                    rollback_end_live: 0,
+                    prune_to_new_start_live: None,
+                    prune_to_new_end_live: Some(0),
+                };
+            }
+            Some(new_start_live)
         } else {
             None
         };
